@@ -62,7 +62,7 @@ def comparison_predicates(ctx, R):
                 if e.label and e.label[0] == "bool" and e.label[1] is True and bb in R.dominated_by_edge(e):
                     if own_only and R.origin(e.src) != R.name:
                         continue
-                    for o in edge_origin(R, e):
+                    for o in edge_origin(R, e)[:1]:   # the value tested itself, not what a spliced-in callee computed it from
                         if o[0] == "await" and o[1] in ctx.f.bodies:
                             out.append((o[1], o[3], e, bb))
         if out:
@@ -689,7 +689,7 @@ def corrupt_is_absent(ctx):
     reads, rsites = state_read_fns(ctx)
     dels, _ = state_delete_fns(ctx)
     for rn in reads:
-        b = f.coroutine_of(rn) or f.bodies[rn]
+        b = f.view(f.coroutine_of(rn) or f.bodies[rn])
         # (a) returned Option derives from Result::ok(decode result) or from the Ok edge
         tps = enumerate_paths(b)
         bad = []
